@@ -4,6 +4,7 @@
 //!   DIR/impl.txt  the implementation's canonical answer per request
 //!   DIR/meta.json statistics of what was generated
 mod common;
+mod stylefmt;
 mod c02;
 mod c18;
 
